@@ -133,10 +133,15 @@ impl Fq {
     ///
     /// Note: Arkworks provides another method for this, called `pow`.
     pub fn power<S: AsRef<[u64]>>(&self, exp: S) -> Self {
+        // Square-and-multiply over every limb of the little-endian exponent.
         let mut res = Fq::from(1u64);
-        let exp_u64 = exp.as_ref();
-        for _ in 0..exp_u64[0] {
-            res *= self;
+        for limb in exp.as_ref().iter().rev() {
+            for i in (0..64).rev() {
+                res = res.square();
+                if (limb >> i) & 1 == 1 {
+                    res *= self;
+                }
+            }
         }
         res
     }
